@@ -157,10 +157,23 @@ def Kind.isExact : Kind → Bool
   | .exact | .kiss | .sgpr => true
   | _ => false
 
-/-- settings cells of a prediction (exact-path settings only) -/
+/-- settings cells of a prediction: six exact-path cells, and two *accuracy-degrading* cells whose own output is
+not part of the property but which fill caches like their exact counterparts:
+`degradedRoot` = `fast_pred_var(num_probe_vectors=1)` + `max_cholesky_size(0)` + `max_root_decomposition_size(2)`
+(a truncated Lanczos root in `covar_cache`), `degradedCG` = `max_cholesky_size(0)` + CG stopped after two iterations. -/
 inductive Cell where
-  | default | fastPredVar | eagerKernels | cg | noDetach | skipVar
+  | default | fastPredVar | eagerKernels | cg | noDetach | skipVar | degradedRoot | degradedCG
   deriving DecidableEq, Repr
+
+/-- `settings.fast_pred_var.on()` -/
+def Cell.fpv : Cell → Bool
+  | .fastPredVar | .degradedRoot => true
+  | _ => false
+
+/-- `max_cholesky_size(0)`: Cholesky factors are not formed -/
+def Cell.noCholesky : Cell → Bool
+  | .cg | .degradedRoot | .degradedCG => true
+  | _ => false
 
 structure Entry where
   pv : Nat
@@ -274,12 +287,12 @@ def stratClassOf (k : Kind) (isDefault : Bool) : Nat :=
 (`observation_nan_policy` stays at its default `"ignore"` in the settings alphabet) -/
 def memoReads (T : Table) (cls : Nat) (c : Cell) : List Nat :=
   if cls == cSGPR then [sMean, sCovar]
-  else if T.defaultReadsCovarCache (c == .fastPredVar) (c == .skipVar) false then [sMean, sCovar] else [sMean]
+  else if T.defaultReadsCovarCache c.fpv (c == .skipVar) false then [sMean, sCovar] else [sMean]
 
 /-- memo names read by a (non-prior) call of a variational strategy -/
 def varReads (k : Kind) (training : Bool) (c : Cell) : List Nat :=
   match k with
-  | .usvgp => (if c == .cg then [sVarDist] else [sVarDist, sChol]) ++ (if training then [sPrior] else [])
+  | .usvgp => (if c.noCholesky then [sVarDist] else [sVarDist, sChol]) ++ (if training then [sPrior] else [])
   | _ => [sVarDist, sChol, sPrior]
 
 def kernelAttrs (T : Table) (k : Kind) : List Nat :=
